@@ -803,6 +803,7 @@ class Interp:
                 if hi > i1[1]:
                     hi = tr[1]
             v = D.fresh_vid(out, lo, hi)
+            D.TERM[v] = ('join', a[1], b[1])     # provenance only (never evaluated, never hash-consed)
             return ('i', v, a[2])
         if k == 't':
             if len(a[1]) != len(b[1]):
